@@ -1164,4 +1164,287 @@ theorem le_run (s : State) (ops : List Op) : Le s (run s ops) := by
   | nil => exact Le.refl s
   | cons op ops ih => exact Le.trans (le_step s op) (ih _)
 
+/-! ### bindings are permanent; every future created for a coroutine keeps that coroutine bound to it -/
+
+/-- bindings are permanent, the future counter only grows by explicit `newFut` -/
+def BLe (s t : State) : Prop :=
+  (∀ c f, (s.co c).bound = some f → (t.co c).bound = some f) ∧ t.nextFut = s.nextFut ∧ t.nExt = s.nExt
+
+theorem BLe.refl (s : State) : BLe s s := ⟨fun _ _ h => h, rfl, rfl⟩
+theorem BLe.trans {s t u : State} (a : BLe s t) (b : BLe t u) : BLe s u :=
+  ⟨fun c f h => b.1 c f (a.1 c f h), by rw [b.2.1, a.2.1], by rw [b.2.2, a.2.2]⟩
+
+theorem ble_setCo_same (s : State) (c : Nat) (x : Coro) (h : x.bound = (s.co c).bound) : BLe s (setCo s c x) := by
+  refine ⟨?_, rfl, rfl⟩
+  intro y f hy; by_cases hyc : y = c
+  · subst hyc; simp [setCo, h, hy]
+  · simp [setCo, upd_ne _ _ hyc, hy]
+
+theorem ble_setCo_none (s : State) (c : Nat) (x : Coro) (h : (s.co c).bound = none) : BLe s (setCo s c x) := by
+  refine ⟨?_, rfl, rfl⟩
+  intro y f hy; by_cases hyc : y = c
+  · subst hyc; rw [h] at hy; cases hy
+  · simp [setCo, upd_ne _ _ hyc, hy]
+
+theorem ble_setFut (s : State) (f : Nat) (x : Fut) : BLe s (setFut s f x) := ⟨fun _ _ h => h, rfl, rfl⟩
+
+theorem ble_resolve (s : State) (f : Nat) : BLe s (resolve s f) :=
+  ⟨fun c g h => by simpa [resolve, wakeOne] using h, rfl, rfl⟩
+
+theorem ble_create (s : State) (c : Nat) : BLe s (create s c) := ble_setCo_same s c _ rfl
+theorem ble_dropU (s : State) (c : Nat) : BLe s (dropU s c) := ble_setCo_same s c _ rfl
+theorem ble_startCoro (s : State) (c : Nat) (b : Option Nat) (h : (s.co c).bound = none) : BLe s (startCoro s c b) :=
+  ble_setCo_none s c _ h
+theorem ble_setSt (s : State) (c : Nat) (st : St) : BLe s (setSt s c st) := ble_setCo_same s c _ rfl
+
+theorem ble_deliver (s : State) (c f : Nat) (o : Outcome) : BLe s (deliver s c f o) :=
+  BLe.trans (ble_setFut s f { s.fut f with out := some o, setBy := some c :: (s.fut f).setBy }) (ble_resolve _ f)
+
+theorem ble_finish (s : State) (c : Nat) (o : Outcome) : BLe s (finish s c o) := by
+  unfold finish
+  split
+  · exact ble_setCo_same s c _ rfl
+  · rename_i f hb
+    exact BLe.trans (ble_deliver s c f o) (ble_setCo_same _ c _ rfl)
+
+theorem ble_consume (s : State) (c f : Nat) (ct : Bool) : BLe s (consume s c f ct) := by
+  unfold consume
+  split
+  · exact ble_setCo_same s c _ rfl
+  · split
+    · exact ble_setCo_same s c _ rfl
+    · exact ble_finish s c _
+
+theorem ble_subscribe (s : State) (c f : Nat) (ct : Bool) : BLe s (subscribe s c f ct) :=
+  BLe.trans (ble_setFut s f _) (ble_setCo_same _ c _ rfl)
+
+/-- every future created for a coroutine (`start()`, `co_await child`) has the coroutine it was created for bound to it -/
+def AllBound (s : State) : Prop := ∀ f, s.nExt ≤ f → f < s.nextFut → ∃ j, (s.co j).bound = some f
+
+theorem ab_of_ble {s t : State} (h : AllBound s) (b : BLe s t) : AllBound t := by
+  intro f h1 h2
+  rw [b.2.2] at h1; rw [b.2.1] at h2
+  obtain ⟨j, hj⟩ := h f h1 h2
+  exact ⟨j, b.1 j f hj⟩
+
+/-- fresh future immediately bound to the unstarted coroutine `j` -/
+theorem ab_newFut_start (s : State) (j : Nat) (o : Option Nat) (h : AllBound s) (hb : (s.co j).bound = none) :
+    AllBound (startCoro (newFut s o []) j (some s.nextFut)) := by
+  intro f h1 h2
+  simp at h1 h2
+  by_cases hf : f = s.nextFut
+  · subst hf; exact ⟨j, by simp [startCoro, setCo]⟩
+  · obtain ⟨y, hy⟩ := h f h1 (by omega)
+    refine ⟨y, ?_⟩
+    have hyj : y ≠ j := by intro e; subst e; rw [hb] at hy; cases hy
+    simp [startCoro, setCo, upd_ne _ _ hyj, hy]
+
+theorem ab_spawnBound (s : State) (c j : Nat) (hi : Inv s) (h : AllBound s) (hj : (s.co j).st = St.absent) :
+    AllBound (spawnBound s c j) := by
+  have hb : (s.co j).bound = none := (hi.co_ok j).unb (by simp [hj, St.started])
+  have h1 : AllBound (create s j) := ab_of_ble h (ble_create s j)
+  have := ab_newFut_start (create s j) j (some c) h1 (by simpa [create, setCo] using hb)
+  exact this
+
+theorem ab_execAct (s : State) (c : Nat) (a : Act) (hi : Inv s) (h : AllBound s) : AllBound (execAct s c a) := by
+  cases a with
+  | compute => exact h
+  | awaitFut k ct =>
+    simp only [execAct]; split
+    · exact ab_of_ble h (ble_setSt s c _)
+    · exact h
+  | awaitChild j direct ct =>
+    simp only [execAct]; split
+    · rename_i hg
+      have h' := ab_spawnBound s c j hi h hg.1
+      split
+      · exact ab_of_ble h' (ble_subscribe _ c _ ct)
+      · exact ab_of_ble h' (ble_setSt _ c _)
+    · exact h
+  | detachChild j awaited =>
+    simp only [execAct]; split
+    · rename_i hg
+      have hb : (s.co j).bound = none := (hi.co_ok j).unb (by simp [hg.1, St.started])
+      have l1 : BLe s (startCoro (create s j) j none) :=
+        BLe.trans (ble_create s j) (ble_startCoro _ j none (by simpa [create, setCo] using hb))
+      split
+      · exact ab_of_ble h (BLe.trans l1 (ble_setSt _ c _))
+      · exact ab_of_ble h l1
+    · exact h
+  | dropChild j =>
+    simp only [execAct]; split
+    · exact ab_of_ble h (BLe.trans (ble_create s j) (ble_dropU _ j))
+    · exact h
+  | throw e => exact ab_of_ble h (ble_finish s c _)
+  | ret v => exact ab_of_ble h (ble_finish s c _)
+
+theorem ab_stepCo (s : State) (c : Nat) (hi : Inv s) (h : AllBound s) : AllBound (stepCo s c).1 := by
+  unfold stepCo
+  split
+  · exact ab_of_ble h (ble_setCo_same s c _ rfl)
+  · exact ab_of_ble h (ble_setSt s c _)
+  · rename_i f ct hs; exact ab_of_ble h (ble_consume s c f ct)
+  · rename_i f ct hs
+    split
+    · exact ab_of_ble h (ble_consume s c f ct)
+    · exact ab_of_ble h (ble_subscribe s c f ct)
+  · rename_i hs
+    split
+    · exact ab_of_ble h (ble_finish s c _)
+    · rename_i a rest hp
+      exact ab_execAct _ c a (inv_setPc s c rest hi hs) (ab_of_ble h (ble_setCo_same s c _ rfl))
+  · exact h
+
+theorem ab_step (s : State) (op : Op) (hi : Inv s) (h : AllBound s) : AllBound (step s op).1 := by
+  cases op with
+  | create c => simp only [step]; split
+                · exact ab_of_ble h (ble_create s c)
+                · exact h
+  | dropU c => simp only [step]; split
+               · exact ab_of_ble h (ble_dropU s c)
+               · exact h
+  | detach c => simp only [step]; split
+                · rename_i hc
+                  exact ab_of_ble h (ble_startCoro s c none ((hi.co_ok c).unb (by simp [hc, St.started])))
+                · exact h
+  | start c => simp only [step]; split
+               · rename_i hc
+                 exact ab_newFut_start s c none h ((hi.co_ok c).unb (by simp [hc, St.started]))
+               · exact h
+  | startP c k =>
+    simp only [step]; split
+    · rename_i hg
+      have hb : (s.co c).bound = none := (hi.co_ok c).unb (by simp [hg.1, St.started])
+      split
+      · exact ab_of_ble h (ble_setCo_none s c _ hb)
+      · exact ab_of_ble h (BLe.trans (ble_setFut s k _) (ble_startCoro _ c _ hb))
+    · exact h
+  | setF k o =>
+    simp only [step, setF]; split
+    · split
+      · exact h
+      · exact ab_of_ble h (BLe.trans (ble_setFut s k _) (ble_resolve _ k))
+    · exact h
+  | dropP k =>
+    simp only [step, dropP]; split
+    · split
+      · exact h
+      · exact ab_of_ble h (BLe.trans (ble_setFut s k _) (ble_resolve _ k))
+    · exact h
+  | step c => exact ab_stepCo s c hi h
+
+theorem ab_init (prog : Nat → List Act) (n : Nat) : AllBound (init prog n) := by
+  intro f h1 h2; simp [init] at h1 h2; omega
+
+theorem ab_run (s : State) (ops : List Op) (hi : Inv s) (h : AllBound s) : AllBound (run s ops) := by
+  induction ops generalizing s with
+  | nil => exact h
+  | cons op ops ih => exact ih _ (inv_step s op hi) (ab_step s op hi h)
+
+/-- a binding, once made, is never changed -/
+def BK (s t : State) : Prop := ∀ c f, (s.co c).bound = some f → (t.co c).bound = some f
+
+theorem BK.refl (s : State) : BK s s := fun _ _ h => h
+theorem BK.trans {s t u : State} (a : BK s t) (b : BK t u) : BK s u := fun c f h => b c f (a c f h)
+theorem bk_of_ble {s t : State} (b : BLe s t) : BK s t := b.1
+theorem bk_newFut (s : State) (o : Option Nat) (w : List Nat) : BK s (newFut s o w) := fun _ _ h => h
+
+theorem bk_spawnBound (s : State) (c j : Nat) (hi : Inv s) (hj : (s.co j).st = St.absent) : BK s (spawnBound s c j) := by
+  have hb : (s.co j).bound = none := (hi.co_ok j).unb (by simp [hj, St.started])
+  refine BK.trans (bk_of_ble (ble_create s j)) (BK.trans (bk_newFut _ (some c) []) (bk_of_ble (ble_startCoro _ j _ ?_)))
+  simpa [create, setCo] using hb
+
+theorem bk_execAct (s : State) (c : Nat) (a : Act) (hi : Inv s) : BK s (execAct s c a) := by
+  cases a with
+  | compute => exact BK.refl s
+  | awaitFut k ct =>
+    simp only [execAct]; split
+    · exact bk_of_ble (ble_setSt s c _)
+    · exact BK.refl s
+  | awaitChild j direct ct =>
+    simp only [execAct]; split
+    · rename_i hg
+      have h' := bk_spawnBound s c j hi hg.1
+      split
+      · exact BK.trans h' (bk_of_ble (ble_subscribe _ c _ ct))
+      · exact BK.trans h' (bk_of_ble (ble_setSt _ c _))
+    · exact BK.refl s
+  | detachChild j awaited =>
+    simp only [execAct]; split
+    · rename_i hg
+      have hb : (s.co j).bound = none := (hi.co_ok j).unb (by simp [hg.1, St.started])
+      have l1 : BLe s (startCoro (create s j) j none) :=
+        BLe.trans (ble_create s j) (ble_startCoro _ j none (by simpa [create, setCo] using hb))
+      split
+      · exact bk_of_ble (BLe.trans l1 (ble_setSt _ c _))
+      · exact bk_of_ble l1
+    · exact BK.refl s
+  | dropChild j =>
+    simp only [execAct]; split
+    · exact bk_of_ble (BLe.trans (ble_create s j) (ble_dropU _ j))
+    · exact BK.refl s
+  | throw e => exact bk_of_ble (ble_finish s c _)
+  | ret v => exact bk_of_ble (ble_finish s c _)
+
+theorem bk_stepCo (s : State) (c : Nat) (hi : Inv s) : BK s (stepCo s c).1 := by
+  unfold stepCo
+  split
+  · exact bk_of_ble (ble_setCo_same s c _ rfl)
+  · exact bk_of_ble (ble_setSt s c _)
+  · rename_i f ct hs; exact bk_of_ble (ble_consume s c f ct)
+  · rename_i f ct hs
+    split
+    · exact bk_of_ble (ble_consume s c f ct)
+    · exact bk_of_ble (ble_subscribe s c f ct)
+  · rename_i hs
+    split
+    · exact bk_of_ble (ble_finish s c _)
+    · rename_i a rest hp
+      exact BK.trans (bk_of_ble (ble_setCo_same s c { s.co c with pc := rest } rfl)) (bk_execAct _ c a (inv_setPc s c rest hi hs))
+  · exact BK.refl s
+
+theorem bk_step (s : State) (op : Op) (hi : Inv s) : BK s (step s op).1 := by
+  cases op with
+  | create c => simp only [step]; split
+                · exact bk_of_ble (ble_create s c)
+                · exact BK.refl s
+  | dropU c => simp only [step]; split
+               · exact bk_of_ble (ble_dropU s c)
+               · exact BK.refl s
+  | detach c => simp only [step]; split
+                · rename_i hc
+                  exact bk_of_ble (ble_startCoro s c none ((hi.co_ok c).unb (by simp [hc, St.started])))
+                · exact BK.refl s
+  | start c => simp only [step]; split
+               · rename_i hc
+                 exact BK.trans (bk_newFut s none [])
+                   (bk_of_ble (ble_startCoro _ c _ ((hi.co_ok c).unb (by simp [hc, St.started]))))
+               · exact BK.refl s
+  | startP c k =>
+    simp only [step]; split
+    · rename_i hg
+      have hb : (s.co c).bound = none := (hi.co_ok c).unb (by simp [hg.1, St.started])
+      split
+      · exact bk_of_ble (ble_setCo_none s c _ hb)
+      · exact bk_of_ble (BLe.trans (ble_setFut s k _) (ble_startCoro _ c _ hb))
+    · exact BK.refl s
+  | setF k o =>
+    simp only [step, setF]; split
+    · split
+      · exact BK.refl s
+      · exact bk_of_ble (BLe.trans (ble_setFut s k _) (ble_resolve _ k))
+    · exact BK.refl s
+  | dropP k =>
+    simp only [step, dropP]; split
+    · split
+      · exact BK.refl s
+      · exact bk_of_ble (BLe.trans (ble_setFut s k _) (ble_resolve _ k))
+    · exact BK.refl s
+  | step c => exact bk_stepCo s c hi
+
+theorem bk_run (s : State) (ops : List Op) (hi : Inv s) : BK s (run s ops) := by
+  induction ops generalizing s with
+  | nil => exact BK.refl s
+  | cons op ops ih => exact BK.trans (bk_step s op hi) (ih _ (inv_step s op hi))
+
 end Cocls.Async
